@@ -300,209 +300,213 @@ def run(ctx):
         if any(x is None for r in inst.R for x in r):
             ctx.count("has -inf reward")
         for kind in kinds:
-            form = make_form(inst, kind, rng, keep_neginf_pairs=(rng.random() < 0.25))
-            ctx.count("form:" + kind)
             try:
-                ddp = build(form)
-            except Exception as e:
-                ctx.fail("constructor_rejects_admissible", "constructor raised on an admissible instance: %r" % (e,),
-                         {"inst": inst.to_json(), "form": kind, "pairs": form.pairs}, repr(e), "accepted")
-                continue
-            ident = (inst.key(), kind, tuple(form.pairs))
-            ctx.case(ident, nontrivial=inst.nontrivial(),
-                     sample={"form": kind, "n": inst.n, "m": inst.m, "beta": inst.beta, "pairs": form.pairs[:8]})
-            inp = {"inst": inst.to_json(), "form": kind, "pairs": form.pairs}
+                form = make_form(inst, kind, rng, keep_neginf_pairs=(rng.random() < 0.25))
+                ctx.count("form:" + kind)
+                try:
+                    ddp = build(form)
+                except Exception as e:
+                    ctx.fail("constructor_rejects_admissible", "constructor raised on an admissible instance: %r" % (e,),
+                             {"inst": inst.to_json(), "form": kind, "pairs": form.pairs}, repr(e), "accepted")
+                    continue
+                ident = (inst.key(), kind, tuple(form.pairs))
+                ctx.case(ident, nontrivial=inst.nontrivial(),
+                         sample={"form": kind, "n": inst.n, "m": inst.m, "beta": inst.beta, "pairs": form.pairs[:8]})
+                inp = {"inst": inst.to_json(), "form": kind, "pairs": form.pairs}
 
-            # ---- constructor result (CSR re-sorting of unsorted pairs)
-            if kind != "product":
-                srt = sorted(range(len(form.pairs)), key=lambda i: form.pairs[i])
-                exp_s = [form.pairs[i][0] for i in srt]; exp_a = [form.pairs[i][1] for i in srt]
-                exp_ptr = [sum(1 for s in exp_s if s < i) for i in range(inst.n + 1)]
-                got = (list(map(int, ddp.s_indices)), list(map(int, ddp.a_indices)), list(map(int, ddp.a_indptr)))
-                Rg = [float(x) for x in ddp.R]; Qg = dense(ddp.Q)
-                okc = got == (exp_s, exp_a, exp_ptr)
-                okc = okc and all(Rg[k] == f2np(inst.R[s][a]) for k, (s, a) in enumerate(zip(exp_s, exp_a)))
-                okc = okc and all(list(Qg[k]) == [float(x) for x in inst.Q[s][a]] for k, (s, a) in enumerate(zip(exp_s, exp_a)))
-                if not okc:
-                    ctx.fail("constructor_sorting", "pairs/rewards/rows after construction are not the (s,a)-sorted input", inp, got, (exp_s, exp_a, exp_ptr))
-                ctor_cases.append(tup(form.coq, natlit(inst.n), natlist(got[0]), natlist(got[1]), natlist(got[2]),
-                                      ext_list(None if x == -np.inf else frac(x) for x in Rg), qlist2([[frac(x) for x in r] for r in Qg])))
-                ctor_meta.append(inp)
+                # ---- constructor result (CSR re-sorting of unsorted pairs)
+                if kind != "product":
+                    srt = sorted(range(len(form.pairs)), key=lambda i: form.pairs[i])
+                    exp_s = [form.pairs[i][0] for i in srt]; exp_a = [form.pairs[i][1] for i in srt]
+                    exp_ptr = [sum(1 for s in exp_s if s < i) for i in range(inst.n + 1)]
+                    got = (list(map(int, ddp.s_indices)), list(map(int, ddp.a_indices)), list(map(int, ddp.a_indptr)))
+                    Rg = [float(x) for x in ddp.R]; Qg = dense(ddp.Q)
+                    okc = got == (exp_s, exp_a, exp_ptr)
+                    okc = okc and all(Rg[k] == f2np(inst.R[s][a]) for k, (s, a) in enumerate(zip(exp_s, exp_a)))
+                    okc = okc and all(list(Qg[k]) == [float(x) for x in inst.Q[s][a]] for k, (s, a) in enumerate(zip(exp_s, exp_a)))
+                    if not okc:
+                        ctx.fail("constructor_sorting", "pairs/rewards/rows after construction are not the (s,a)-sorted input", inp, got, (exp_s, exp_a, exp_ptr))
+                    ctor_cases.append(tup(form.coq, natlit(inst.n), natlist(got[0]), natlist(got[1]), natlist(got[2]),
+                                          ext_list(None if x == -np.inf else frac(x) for x in Rg), qlist2([[frac(x) for x in r] for r in Qg])))
+                    ctor_meta.append(inp)
 
-            # ---- bellman_operator / compute_greedy
-            tests_exact, tests_close = [], []
-            vs_list = [[Fraction(0)] * inst.n] + [dyadic_v(rng, inst.n) for _ in range(3)]
-            vs_list.append(dyadic_v(rng, inst.n, scale_bits=rng.choice([10, 20, 30])))
-            for vi_, v in enumerate(vs_list):
-                vf = np.array([float(x) for x in v])
-                mode = vi_ % 3
-                if mode == 0:
-                    Tv = ddp.bellman_operator(vf); sg = ddp.compute_greedy(vf)
-                elif mode == 1:
-                    Tv = np.empty(inst.n); sg = np.empty(inst.n, dtype=int)
-                    r = ddp.bellman_operator(vf, Tv=Tv, sigma=sg)
-                    if r is not Tv:
-                        ctx.fail("bellman_out_array", "bellman_operator did not return the supplied Tv array", inp, None, None)
-                else:
-                    Tv = np.empty(inst.n)
-                    ddp.bellman_operator(vf, Tv=Tv)
-                    sg = np.empty(inst.n, dtype=int)
-                    r = ddp.compute_greedy(vf, sigma=sg)
-                    if r is not sg:
-                        ctx.fail("greedy_out_array", "compute_greedy did not return the supplied sigma array", inp, None, None)
-                ctx.count("bellman:out-arrays mode %d" % mode)
-                Tv = [float(x) for x in Tv]; sg = [int(x) for x in sg]
-                oTv, oarg = o_bellman(inst, v)
-                tie = any(len(a) > 1 for a in oarg)
-                ctx.count("bellman:tie" if tie else "bellman:unique argmax")
-                exact = inst.dyadic
-                if exact:
-                    if [frac(x) for x in Tv] != oTv or sg != [a[0] for a in oarg]:
-                        ctx.fail("bellman_value", "bellman_operator/compute_greedy differ from the exact max / first maximiser (dyadic data)",
-                                 dict(inp, v=v), {"Tv": Tv, "sigma": sg}, {"Tv": oTv, "argmax sets": oarg})
-                    tests_exact.append(tup(qlist(v), qlist([frac(x) for x in Tv]), natlist(sg)))
-                else:
-                    if not all(close(x, y) for x, y in zip(Tv, oTv)) or not sigma_is_near_greedy(inst, v, sg) \
-                            or any(len(a) == 1 and sg[s] != a[0] and
-                                   min(oTv[s] - x for b, x in o_vals(inst, v, s).items() if b != a[0]) > TOL * (1 + abs(oTv[s]))
-                                   for s, a in enumerate(oarg)):
-                        ctx.fail("bellman_value", "bellman_operator/compute_greedy differ from the exact max / a maximiser",
-                                 dict(inp, v=v), {"Tv": Tv, "sigma": sg}, {"Tv": oTv, "argmax sets": oarg})
-                    tests_close.append(tup(qlist(v), qlist([frac(x) for x in Tv]), natlist(sg)))
-            if tests_exact:
-                bell_exact.append(tup(form.coq, "[" + "; ".join(tests_exact) + "]")); meta_exact.append(inp)
-            if tests_close:
-                bell_close.append(tup(form.coq, "[" + "; ".join(tests_close) + "]")); meta_close.append(inp)
+                # ---- bellman_operator / compute_greedy
+                tests_exact, tests_close = [], []
+                vs_list = [[Fraction(0)] * inst.n] + [dyadic_v(rng, inst.n) for _ in range(3)]
+                vs_list.append(dyadic_v(rng, inst.n, scale_bits=rng.choice([10, 20, 30])))
+                for vi_, v in enumerate(vs_list):
+                    vf = np.array([float(x) for x in v])
+                    mode = vi_ % 3
+                    if mode == 0:
+                        Tv = ddp.bellman_operator(vf); sg = ddp.compute_greedy(vf)
+                    elif mode == 1:
+                        Tv = np.empty(inst.n); sg = np.empty(inst.n, dtype=int)
+                        r = ddp.bellman_operator(vf, Tv=Tv, sigma=sg)
+                        if r is not Tv:
+                            ctx.fail("bellman_out_array", "bellman_operator did not return the supplied Tv array", inp, None, None)
+                    else:
+                        Tv = np.empty(inst.n)
+                        ddp.bellman_operator(vf, Tv=Tv)
+                        sg = np.empty(inst.n, dtype=int)
+                        r = ddp.compute_greedy(vf, sigma=sg)
+                        if r is not sg:
+                            ctx.fail("greedy_out_array", "compute_greedy did not return the supplied sigma array", inp, None, None)
+                    ctx.count("bellman:out-arrays mode %d" % mode)
+                    Tv = [float(x) for x in Tv]; sg = [int(x) for x in sg]
+                    oTv, oarg = o_bellman(inst, v)
+                    tie = any(len(a) > 1 for a in oarg)
+                    ctx.count("bellman:tie" if tie else "bellman:unique argmax")
+                    exact = inst.dyadic
+                    if exact:
+                        if [frac(x) for x in Tv] != oTv or sg != [a[0] for a in oarg]:
+                            ctx.fail("bellman_value", "bellman_operator/compute_greedy differ from the exact max / first maximiser (dyadic data)",
+                                     dict(inp, v=v), {"Tv": Tv, "sigma": sg}, {"Tv": oTv, "argmax sets": oarg})
+                        tests_exact.append(tup(qlist(v), qlist([frac(x) for x in Tv]), natlist(sg)))
+                    else:
+                        if not all(close(x, y) for x, y in zip(Tv, oTv)) or not sigma_is_near_greedy(inst, v, sg) \
+                                or any(len(a) == 1 and sg[s] != a[0] and
+                                       min(oTv[s] - x for b, x in o_vals(inst, v, s).items() if b != a[0]) > TOL * (1 + abs(oTv[s]))
+                                       for s, a in enumerate(oarg)):
+                            ctx.fail("bellman_value", "bellman_operator/compute_greedy differ from the exact max / a maximiser",
+                                     dict(inp, v=v), {"Tv": Tv, "sigma": sg}, {"Tv": oTv, "argmax sets": oarg})
+                        tests_close.append(tup(qlist(v), qlist([frac(x) for x in Tv]), natlist(sg)))
+                if tests_exact:
+                    bell_exact.append(tup(form.coq, "[" + "; ".join(tests_exact) + "]")); meta_exact.append(inp)
+                if tests_close:
+                    bell_close.append(tup(form.coq, "[" + "; ".join(tests_close) + "]")); meta_close.append(inp)
 
-            # huge / very negative dyadic v through the float instance (bit-exact: every product and partial sum is exact)
-            if inst.dyadic and kind in ("product", "sa_shuffled", "sa_sparse"):
-                e = rng.choice([60, 100, 500, 1000])
-                vbig = [rng.randrange(-2**20, 2**20) * 2.0 ** e for _ in range(inst.n)]
-                Tv = [float(x) for x in ddp.bellman_operator(np.array(vbig))]
-                sg = [int(x) for x in ddp.compute_greedy(np.array(vbig))]
-                ex = [Fraction(x) for x in vbig]
-                oTv, oarg = o_bellman(inst, ex)
-                if not all(close(x, y, Fraction(1, 10**15)) for x, y in zip(Tv, oTv)) or not sigma_is_near_greedy(inst, ex, sg, Fraction(1, 10**15)):
-                    ctx.fail("bellman_value_huge", "bellman_operator wrong on huge v", dict(inp, v=vbig), {"Tv": Tv, "sigma": sg}, {"Tv": oTv})
-                fcoq = form.coq.replace("(T:=Q)", "(T:=float)")
-                # rebuild the term with float literals
-                fcoq = float_term(form)
-                bell_float.append(tup(fcoq, flist(vbig), flist(Tv), natlist(sg))); meta_float.append(dict(inp, v=vbig))
-                ctx.count("bellman:huge v 2^%d" % e)
+                # huge / very negative dyadic v through the float instance (bit-exact: every product and partial sum is exact)
+                if inst.dyadic and kind in ("product", "sa_shuffled", "sa_sparse"):
+                    e = rng.choice([60, 100, 500, 1000])
+                    vbig = [rng.randrange(-2**20, 2**20) * 2.0 ** e for _ in range(inst.n)]
+                    Tv = [float(x) for x in ddp.bellman_operator(np.array(vbig))]
+                    sg = [int(x) for x in ddp.compute_greedy(np.array(vbig))]
+                    ex = [Fraction(x) for x in vbig]
+                    oTv, oarg = o_bellman(inst, ex)
+                    if not all(close(x, y, Fraction(1, 10**15)) for x, y in zip(Tv, oTv)) or not sigma_is_near_greedy(inst, ex, sg, Fraction(1, 10**15)):
+                        ctx.fail("bellman_value_huge", "bellman_operator wrong on huge v", dict(inp, v=vbig), {"Tv": Tv, "sigma": sg}, {"Tv": oTv})
+                    fcoq = form.coq.replace("(T:=Q)", "(T:=float)")
+                    # rebuild the term with float literals
+                    fcoq = float_term(form)
+                    bell_float.append(tup(fcoq, flist(vbig), flist(Tv), natlist(sg))); meta_float.append(dict(inp, v=vbig))
+                    ctx.count("bellman:huge v 2^%d" % e)
 
-            # ---- RQ_sigma / T_sigma / controlled_mc / evaluate_policy over feasible policies
-            pols = feasible_policies(inst, rng, 24 if inst.n <= 4 else 8) if (thorough or ii % 3 == 0) else feasible_policies(inst, rng, 3)
-            rq_tests, ev_tests = [], []
-            for sigma in pols:
-                Rs, Qs = ddp.RQ_sigma(np.array(sigma))
-                Rs = [float(x) for x in Rs]; Qs = dense(Qs)
-                mcP = dense(ddp.controlled_mc(np.array(sigma)).P)
-                v = dyadic_v(rng, inst.n)
-                Tsv = [float(x) for x in ddp.T_sigma(np.array(sigma))(np.array([float(x) for x in v]))]
-                oR = [inst.R[s][sigma[s]] for s in range(inst.n)]
-                oQ = [inst.Q[s][sigma[s]] for s in range(inst.n)]
-                if Rs != [float(x) for x in oR] or [list(r) for r in Qs] != [[float(x) for x in r] for r in oQ] \
-                        or not np.array_equal(mcP, Qs):
-                    ctx.fail("RQ_sigma_rows", "RQ_sigma/controlled_mc do not select the rows of the pairs (s, sigma(s))",
-                             dict(inp, sigma=sigma), {"R_sigma": Rs, "Q_sigma": Qs}, {"R_sigma": oR, "Q_sigma": oQ})
-                oT = [oR[s] + inst.beta * sum(q * x for q, x in zip(oQ[s], v)) for s in range(inst.n)]
-                if not all(close(x, y) for x, y in zip(Tsv, oT)):
-                    ctx.fail("T_sigma_value", "T_sigma(v) is not R_sigma + beta Q_sigma v", dict(inp, sigma=sigma, v=v), Tsv, oT)
-                rq_tests.append(tup(natlist(sigma), qlist([frac(x) for x in Rs]), qlist2([[frac(x) for x in r] for r in Qs]),
-                                    qlist(v), qlist([frac(x) for x in Tsv])))
-                if inst.beta < 1:
-                    ev = [float(x) for x in ddp.evaluate_policy(np.array(sigma))]
-                    ov = o_policy_value(inst, sigma)
-                    if ov is None or not all(close(x, y) for x, y in zip(ev, ov)):
-                        ctx.fail("evaluate_policy_value", "evaluate_policy is not the fixed point of T_sigma", dict(inp, sigma=sigma), ev, ov)
-                    ev_tests.append(tup(natlist(sigma), qlist([frac(x) for x in ev])))
-                ctx.count("policies evaluated")
-            if rq_tests:
-                rq_cases.append(tup(form.coq, "[" + "; ".join(rq_tests) + "]")); rq_meta.append(inp)
-            if ev_tests:
-                ev_cases.append(tup(form.coq, "[" + "; ".join(ev_tests) + "]")); ev_meta.append(inp)
+                # ---- RQ_sigma / T_sigma / controlled_mc / evaluate_policy over feasible policies
+                pols = feasible_policies(inst, rng, 24 if inst.n <= 4 else 8) if (thorough or ii % 3 == 0) else feasible_policies(inst, rng, 3)
+                rq_tests, ev_tests = [], []
+                for sigma in pols:
+                    Rs, Qs = ddp.RQ_sigma(np.array(sigma))
+                    Rs = [float(x) for x in Rs]; Qs = dense(Qs)
+                    mcP = dense(ddp.controlled_mc(np.array(sigma)).P)
+                    v = dyadic_v(rng, inst.n)
+                    Tsv = [float(x) for x in ddp.T_sigma(np.array(sigma))(np.array([float(x) for x in v]))]
+                    oR = [inst.R[s][sigma[s]] for s in range(inst.n)]
+                    oQ = [inst.Q[s][sigma[s]] for s in range(inst.n)]
+                    if Rs != [float(x) for x in oR] or [list(r) for r in Qs] != [[float(x) for x in r] for r in oQ] \
+                            or not np.array_equal(mcP, Qs):
+                        ctx.fail("RQ_sigma_rows", "RQ_sigma/controlled_mc do not select the rows of the pairs (s, sigma(s))",
+                                 dict(inp, sigma=sigma), {"R_sigma": Rs, "Q_sigma": Qs}, {"R_sigma": oR, "Q_sigma": oQ})
+                    oT = [oR[s] + inst.beta * sum(q * x for q, x in zip(oQ[s], v)) for s in range(inst.n)]
+                    if not all(close(x, y) for x, y in zip(Tsv, oT)):
+                        ctx.fail("T_sigma_value", "T_sigma(v) is not R_sigma + beta Q_sigma v", dict(inp, sigma=sigma, v=v), Tsv, oT)
+                    rq_tests.append(tup(natlist(sigma), qlist([frac(x) for x in Rs]), qlist2([[frac(x) for x in r] for r in Qs]),
+                                        qlist(v), qlist([frac(x) for x in Tsv])))
+                    if inst.beta < 1:
+                        ev = [float(x) for x in ddp.evaluate_policy(np.array(sigma))]
+                        ov = o_policy_value(inst, sigma)
+                        if ov is None or not all(close(x, y) for x, y in zip(ev, ov)):
+                            ctx.fail("evaluate_policy_value", "evaluate_policy is not the fixed point of T_sigma", dict(inp, sigma=sigma), ev, ov)
+                        ev_tests.append(tup(natlist(sigma), qlist([frac(x) for x in ev])))
+                    ctx.count("policies evaluated")
+                if rq_tests:
+                    rq_cases.append(tup(form.coq, "[" + "; ".join(rq_tests) + "]")); rq_meta.append(inp)
+                if ev_tests:
+                    ev_cases.append(tup(form.coq, "[" + "; ".join(ev_tests) + "]")); ev_meta.append(inp)
 
-            # ---- backward induction
-            if thorough or ii % 2 == 0 or inst.beta == 1:
-                Th = rng.choice([0, 1, 2, 3, 5, 8])
-                vterm = None if rng.random() < 0.3 else dyadic_v(rng, inst.n)
-                vs, sgs = backward_induction(ddp, Th, None if vterm is None else np.array([float(x) for x in vterm]))
-                vt = vterm if vterm is not None else [Fraction(0)] * inst.n
-                ovs = [vt]; ok_bi = True
-                for t in range(Th, 0, -1):
-                    nv, _ = o_bellman(inst, ovs[0])
-                    if not sigma_is_near_greedy(inst, ovs[0], [int(x) for x in sgs[t - 1]]):
-                        ok_bi = False
-                    ovs.insert(0, nv)
-                if vs.shape != (Th + 1, inst.n) or sgs.shape != (Th, inst.n) or not ok_bi or \
-                        not all(close(float(vs[t, s]), ovs[t][s]) for t in range(Th + 1) for s in range(inst.n)):
-                    ctx.fail("backward_induction_value", "backward_induction is not the exact finite-horizon recursion",
-                             dict(inp, T=Th, v_term=vterm), {"vs": vs, "sigmas": sgs}, {"vs": ovs})
-                # brute force over all policy sequences for tiny instances
-                if 1 <= Th <= 3 and num_policies(inst) ** Th <= 300:
-                    best = None
-                    for seq in itertools.product(list(all_policies(inst)), repeat=Th):
+                # ---- backward induction
+                if thorough or ii % 2 == 0 or inst.beta == 1:
+                    Th = rng.choice([0, 1, 2, 3, 5, 8])
+                    vterm = None if rng.random() < 0.3 else dyadic_v(rng, inst.n)
+                    vs, sgs = backward_induction(ddp, Th, None if vterm is None else np.array([float(x) for x in vterm]))
+                    vt = vterm if vterm is not None else [Fraction(0)] * inst.n
+                    ovs = [vt]; ok_bi = True
+                    for t in range(Th, 0, -1):
+                        nv, _ = o_bellman(inst, ovs[0])
+                        if not sigma_is_near_greedy(inst, ovs[0], [int(x) for x in sgs[t - 1]]):
+                            ok_bi = False
+                        ovs.insert(0, nv)
+                    if vs.shape != (Th + 1, inst.n) or sgs.shape != (Th, inst.n) or not ok_bi or \
+                            not all(close(float(vs[t, s]), ovs[t][s]) for t in range(Th + 1) for s in range(inst.n)):
+                        ctx.fail("backward_induction_value", "backward_induction is not the exact finite-horizon recursion",
+                                 dict(inp, T=Th, v_term=vterm), {"vs": vs, "sigmas": sgs}, {"vs": ovs})
+                    # brute force over all policy sequences for tiny instances
+                    if 1 <= Th <= 3 and num_policies(inst) ** Th <= 300:
+                        best = None
+                        for seq in itertools.product(list(all_policies(inst)), repeat=Th):
+                            w = list(vt)
+                            for t in range(Th - 1, -1, -1):
+                                w = [inst.R[s][seq[t][s]] + inst.beta * sum(q * x for q, x in zip(inst.Q[s][seq[t][s]], w)) for s in range(inst.n)]
+                            best = w if best is None else [max(x, y) for x, y in zip(best, w)]
                         w = list(vt)
                         for t in range(Th - 1, -1, -1):
-                            w = [inst.R[s][seq[t][s]] + inst.beta * sum(q * x for q, x in zip(inst.Q[s][seq[t][s]], w)) for s in range(inst.n)]
-                        best = w if best is None else [max(x, y) for x, y in zip(best, w)]
-                    w = list(vt)
-                    for t in range(Th - 1, -1, -1):
-                        sg = [int(x) for x in sgs[t]]
-                        w = [inst.R[s][sg[s]] + inst.beta * sum(q * x for q, x in zip(inst.Q[s][sg[s]], w)) if sg[s] in inst.feasible(s) else Fraction(-10**9) for s in range(inst.n)]
-                    ctx.count("backward induction: brute force over policy sequences")
-                    if not all(close(float(vs[0, s]), best[s]) for s in range(inst.n)) or not all(abs(w[s] - best[s]) <= TOL * (1 + abs(best[s])) for s in range(inst.n)):
-                        ctx.fail("backward_induction_optimal", "vs[0] / sigmas are not optimal among all policy sequences",
-                                 dict(inp, T=Th, v_term=vterm), {"vs0": vs[0], "sigmas": sgs, "value of sigmas": w}, best)
-                ctx.count("backward induction T=%d" % Th)
-                bi_cases.append(tup(form.coq, natlit(Th), qlist(vt), qlist2([[frac(x) for x in r] for r in vs]),
-                                    "[" + "; ".join(natlist([int(x) for x in r]) for r in sgs) + "]" if Th else "(@nil (list nat))"))
-                bi_meta.append(dict(inp, T=Th, v_term=vterm))
+                            sg = [int(x) for x in sgs[t]]
+                            w = [inst.R[s][sg[s]] + inst.beta * sum(q * x for q, x in zip(inst.Q[s][sg[s]], w)) if sg[s] in inst.feasible(s) else Fraction(-10**9) for s in range(inst.n)]
+                        ctx.count("backward induction: brute force over policy sequences")
+                        if not all(close(float(vs[0, s]), best[s]) for s in range(inst.n)) or not all(abs(w[s] - best[s]) <= TOL * (1 + abs(best[s])) for s in range(inst.n)):
+                            ctx.fail("backward_induction_optimal", "vs[0] / sigmas are not optimal among all policy sequences",
+                                     dict(inp, T=Th, v_term=vterm), {"vs0": vs[0], "sigmas": sgs, "value of sigmas": w}, best)
+                    ctx.count("backward induction T=%d" % Th)
+                    bi_cases.append(tup(form.coq, natlit(Th), qlist(vt), qlist2([[frac(x) for x in r] for r in vs]),
+                                        "[" + "; ".join(natlist([int(x) for x in r]) for r in sgs) + "]" if Th else "(@nil (list nat))"))
+                    bi_meta.append(dict(inp, T=Th, v_term=vterm))
 
-            # ---- form conversion
-            if kind == "product":
-                for sparse in (True, False):
-                    sa = ddp.to_sa_pair_form(sparse=sparse)
-                    feas = [(s, a) for s in range(inst.n) for a in inst.feasible(s)]
-                    got = (list(map(int, sa.s_indices)), list(map(int, sa.a_indices)), list(map(int, sa.a_indptr)))
-                    Rg = [float(x) for x in sa.R]; Qg = dense(sa.Q)
-                    okc = list(zip(got[0], got[1])) == feas and Rg == [float(inst.R[s][a]) for s, a in feas] and \
-                        [list(r) for r in Qg] == [[float(x) for x in inst.Q[s][a]] for s, a in feas] and sa.beta == ddp.beta
-                    back = sa.to_product_form()
-                    okc = okc and np.array_equal(back.R, ddp.R) and all(np.array_equal(back.Q[s, a], ddp.Q[s, a]) for s, a in feas) \
-                        and all(not back.Q[s, a].any() for s in range(inst.n) for a in range(back.R.shape[1]) if (s, a) not in feas) \
-                        if okc and back.R.shape == ddp.R.shape else (okc and all(
-                            back.R[s, a] == ddp.R[s, a] for s in range(inst.n) for a in range(back.R.shape[1])) and
-                            all(x is None for r in inst.R for x in r[back.R.shape[1]:]))
+                # ---- form conversion
+                if kind == "product":
+                    for sparse in (True, False):
+                        sa = ddp.to_sa_pair_form(sparse=sparse)
+                        feas = [(s, a) for s in range(inst.n) for a in inst.feasible(s)]
+                        got = (list(map(int, sa.s_indices)), list(map(int, sa.a_indices)), list(map(int, sa.a_indptr)))
+                        Rg = [float(x) for x in sa.R]; Qg = dense(sa.Q)
+                        okc = list(zip(got[0], got[1])) == feas and Rg == [float(inst.R[s][a]) for s, a in feas] and \
+                            [list(r) for r in Qg] == [[float(x) for x in inst.Q[s][a]] for s, a in feas] and sa.beta == ddp.beta
+                        back = sa.to_product_form()
+                        okc = okc and np.array_equal(back.R, ddp.R) and all(np.array_equal(back.Q[s, a], ddp.Q[s, a]) for s, a in feas) \
+                            and all(not back.Q[s, a].any() for s in range(inst.n) for a in range(back.R.shape[1]) if (s, a) not in feas) \
+                            if okc and back.R.shape == ddp.R.shape else (okc and all(
+                                back.R[s, a] == ddp.R[s, a] for s in range(inst.n) for a in range(back.R.shape[1])) and
+                                all(x is None for r in inst.R for x in r[back.R.shape[1]:]))
+                        if not okc:
+                            ctx.fail("form_conversion", "to_sa_pair_form/to_product_form do not preserve rewards, rows and feasibility",
+                                     dict(inp, sparse=sparse), {"s": got[0], "a": got[1], "R": Rg}, feas)
+                        conv_cases.append(tup(form.coq, "true", natlist(got[0]), natlist(got[1]), natlist(got[2]),
+                                              ext_list(None if x == -np.inf else frac(x) for x in Rg), qlist2([[frac(x) for x in r] for r in Qg])))
+                        conv_meta.append(dict(inp, conv="to_sa_pair_form", sparse=sparse))
+                        if ddp.to_product_form() is not ddp:
+                            ctx.fail("form_conversion", "to_product_form of a product ddp is not the identity", inp, None, None)
+                else:
+                    pr = ddp.to_product_form()
+                    na = pr.R.shape[1]
+                    okc = pr.R.shape == (inst.n, na) and pr.Q.shape == (inst.n, na, inst.n) and na == max(form.a) + 1
+                    pset = set(form.pairs)
+                    for s in range(inst.n):
+                        for a in range(na if okc else 0):
+                            if (s, a) in pset:
+                                okc = okc and pr.R[s, a] == f2np(inst.R[s][a]) and list(pr.Q[s, a]) == [float(x) for x in inst.Q[s][a]]
+                            else:
+                                okc = okc and pr.R[s, a] == -np.inf and not pr.Q[s, a].any()
                     if not okc:
-                        ctx.fail("form_conversion", "to_sa_pair_form/to_product_form do not preserve rewards, rows and feasibility",
-                                 dict(inp, sparse=sparse), {"s": got[0], "a": got[1], "R": Rg}, feas)
-                    conv_cases.append(tup(form.coq, "true", natlist(got[0]), natlist(got[1]), natlist(got[2]),
+                        ctx.fail("form_conversion", "to_product_form does not preserve rewards, rows and feasibility", inp,
+                                 {"R": pr.R, "Q": pr.Q}, None)
+                    if ddp.to_sa_pair_form() is not ddp:
+                        ctx.fail("form_conversion", "to_sa_pair_form of an sa-pair ddp is not the identity", inp, None, None)
+                    Rg = [x for r in pr.R for x in r]; Qg = [list(q) for rows in pr.Q for q in rows]
+                    conv_cases.append(tup(form.coq, "false", natlist([s for s in range(inst.n) for _ in range(na)]),
+                                          natlist([a for _ in range(inst.n) for a in range(na)]), natlist([i * na for i in range(inst.n + 1)]),
                                           ext_list(None if x == -np.inf else frac(x) for x in Rg), qlist2([[frac(x) for x in r] for r in Qg])))
-                    conv_meta.append(dict(inp, conv="to_sa_pair_form", sparse=sparse))
-                    if ddp.to_product_form() is not ddp:
-                        ctx.fail("form_conversion", "to_product_form of a product ddp is not the identity", inp, None, None)
-            else:
-                pr = ddp.to_product_form()
-                na = pr.R.shape[1]
-                okc = pr.R.shape == (inst.n, na) and pr.Q.shape == (inst.n, na, inst.n) and na == max(form.a) + 1
-                pset = set(form.pairs)
-                for s in range(inst.n):
-                    for a in range(na if okc else 0):
-                        if (s, a) in pset:
-                            okc = okc and pr.R[s, a] == f2np(inst.R[s][a]) and list(pr.Q[s, a]) == [float(x) for x in inst.Q[s][a]]
-                        else:
-                            okc = okc and pr.R[s, a] == -np.inf and not pr.Q[s, a].any()
-                if not okc:
-                    ctx.fail("form_conversion", "to_product_form does not preserve rewards, rows and feasibility", inp,
-                             {"R": pr.R, "Q": pr.Q}, None)
-                if ddp.to_sa_pair_form() is not ddp:
-                    ctx.fail("form_conversion", "to_sa_pair_form of an sa-pair ddp is not the identity", inp, None, None)
-                Rg = [x for r in pr.R for x in r]; Qg = [list(q) for rows in pr.Q for q in rows]
-                conv_cases.append(tup(form.coq, "false", natlist([s for s in range(inst.n) for _ in range(na)]),
-                                      natlist([a for _ in range(inst.n) for a in range(na)]), natlist([i * na for i in range(inst.n + 1)]),
-                                      ext_list(None if x == -np.inf else frac(x) for x in Rg), qlist2([[frac(x) for x in r] for r in Qg])))
-                conv_meta.append(dict(inp, conv="to_product_form"))
+                    conv_meta.append(dict(inp, conv="to_product_form"))
+            except Exception as e:   # garbage (inf/nan, wrong shapes) or an exception from the implementation on an admissible instance
+                ctx.fail("implementation_raised_or_garbage", "operation raised or returned non-finite/ill-shaped data: %r" % (e,),
+                         {"inst": inst.to_json(), "form": kind}, repr(e), None)
 
     DD = "cres (ddp Q)"
     TOLd = "(1 # 1000000000000)"
